@@ -2233,6 +2233,92 @@ def _setup_base_env():
             os.environ.pop(k, None)
 
 
+# ------------------------------------------------------------------------------
+# task service of the master: a worker asks the master to run a task and waits
+# for it (`Master._run_task`, on the service thread); the result comes back
+# through `_result_cb` on the result getter thread - possibly at once
+#
+def run_task_service(res, rng, workdir, idx):
+    import time
+    import threading as mt
+    from ..popsim import Perturb
+    import radical.pilot.raptor.master as m_master
+
+    seed = rng.randint(0, 2 ** 30)
+    net, reg = fresh_net(seed)
+    pert = None
+    try:
+        m = make_master(reg, workdir, uid='master.%04d' % (idx % 10))
+        pert = Perturb(seed, 0.4, funcs=[m_master.Master._run_task,
+                                         m_master.Master.submit_tasks])
+        n     = rng.randint(1, 3)
+        delay = [rng.choice([0, 0, 0, 0.001, 0.005]) for _ in range(n)]
+        out, errs = dict(), list()
+        answered  = dict()
+
+        def service(k):
+            try:
+                td = {'mode': TASK_FUNC, 'function': 'c20_payload',
+                      'args': [], 'kwargs': {}, 'ranks': 1,
+                      'cores_per_rank': 1, 'named_env': ''}
+                out[k] = m._run_task(td)
+            except Exception as e:
+                errs.append('service %d: %r' % (k, e))
+
+        def getter():
+            # the worker side: takes requests off the queue, answers them
+            try:
+                end = time.time() + 10
+                while len(answered) < n and time.time() < end:
+                    got = net.q_get(REQ_URL, 'default', who='worker')
+                    if not got:
+                        time.sleep(0.0002)
+                        continue
+                    for t in ru.as_list(got):
+                        k = len(answered)
+                        time.sleep(delay[k])
+                        r = dict(t, exit_code=0, return_value=k,
+                                 stdout='', stderr='', exception=None,
+                                 exception_detail=None)
+                        m._result_cb([r])
+                        answered[t['uid']] = time.time()
+            except Exception as e:
+                errs.append('getter: %r' % e)
+
+        ts = [mt.Thread(target=service, args=[k], daemon=True,
+                        name='task-service-%d' % k) for k in range(n)]
+        g  = mt.Thread(target=getter, daemon=True, name='result-getter')
+        for t in ts: t.start()
+        g.start()
+        g.join(timeout=15)
+        for t in ts: t.join(timeout=3)
+        res.count('task_service_histories')
+        ctx_ = {'part': 'task-service', 'seed': seed, 'n': n, 'errors': errs,
+                'answered': sorted(answered)}
+        for e in errs:
+            res.violation('task-service/raised', e, ctx_)
+            return
+        if len(answered) < n:
+            res.inconc('task service: requests did not reach the queue')
+            return
+        stuck = [t.name for t in ts if t.is_alive()]
+        if stuck:
+            res.violation('request-stuck-after-result', '%d request(s) were '
+                          'answered (their results went through _result_cb), '
+                          '%s still wait(s) for the result; bookkeeping left: '
+                          '%s' % (n, stuck, sorted(m._task_service_data)),
+                          ctx_)
+            return
+        res.count('task_service_requests_checked', n)
+        if m._task_service_data:
+            res.violation('task-service/bookkeeping-left',
+                          str(sorted(m._task_service_data)), ctx_)
+    finally:
+        if pert:
+            pert.stop()
+        memzmq.uninstall()
+
+
 def run(ctx):
 
     res   = Result()
@@ -2321,6 +2407,13 @@ def run(ctx):
     rng_r = ctx.rng('rrace')
     for i in range(ctx.n(480, 6400)):
         raptor_race(ctx, res, rng_r, i)
+        if len(res.violations) > 20:
+            break
+
+    # the master's task service (threads: after everything which forks)
+    rng_t = ctx.rng('task-service')
+    for i in range(ctx.n(240, 6000)):
+        run_task_service(res, rng_t, workdir, i)
         if len(res.violations) > 20:
             break
 
